@@ -455,7 +455,8 @@ class Model(Immutable):
 
     @cache_method
     def __hash__(self):
-        dataset_hash = hash_df_runtime(self._dataset) if self._dataset is not None else None
+        # NOTE: The dataset is not part of __eq__ (and not of to_dict), so it
+        # cannot be part of the hash: equal models must have equal hashes
         # NOTE: A DataFrame is not hashable
         ie = self._initial_individual_estimates
         ie_hash = hash_df_runtime(ie) if ie is not None else None
@@ -469,7 +470,6 @@ class Model(Immutable):
                 self._execution_steps,
                 ie_hash,
                 self._datainfo,
-                dataset_hash,
                 self._value_type,
             )
         )
